@@ -281,6 +281,40 @@ func c02Gen(g *hx.Gen) {
 				emit("GET", s.prefix+"//"+strings.TrimPrefix(esc, "/")+tail, "")
 			}
 		}
+		// detours: every entry reached through every directory and back up, the files outside the
+		// root through every directory and further up
+		var relDirs []string
+		for _, e := range fx.entries {
+			if e.isDir && strings.HasPrefix(e.path, "/site/") {
+				relDirs = append(relDirs, strings.TrimPrefix(e.path, "/site"))
+			}
+		}
+		relDirs = append(relDirs, "/nonexistent")
+		for _, e := range fx.entries {
+			var rel string
+			outside := !strings.HasPrefix(e.path, "/site/")
+			if outside {
+				rel = "/.." + e.path // e.g. /../outside.txt, /../site2/x.txt
+			} else {
+				rel = strings.TrimPrefix(e.path, "/site")
+			}
+			rel = (&url.URL{Path: rel}).EscapedPath()
+			for i, d := range relDirs {
+				esc := (&url.URL{Path: d}).EscapedPath()
+				up := strings.Repeat("/..", strings.Count(d, "/"))
+				if i%3 == 1 {
+					up = strings.Repeat("/%2e%2e", strings.Count(d, "/"))
+				} else if i%3 == 2 {
+					up = strings.Repeat("/.%2E", strings.Count(d, "/"))
+				}
+				emit("GET", s.prefix+esc+up+rel, "")
+				if outside {
+					emit("GET", s.prefix+esc+up+"/.."+rel, "gzip")
+					emit("GET", s.prefix+esc+up+strings.ReplaceAll(rel, "/", "%2f"), "")
+					emit("GET", s.prefix+esc+up+strings.ReplaceAll(rel, "/", "\\"), "")
+				}
+			}
+		}
 		// seeded random: longer targets, all dimensions
 		n := 1500
 		if g.Thorough() {
